@@ -165,7 +165,8 @@ Qed.
 (** well-formedness of inputs: basis points are unsigned in Go; the declared fee is an sdk.Coins *)
 Definition wf_cfg (cfg : config) : Prop := forall e, In e (schedule cfg) -> 0 <= fe_bips e.
 Definition wf_routed (r : routed) : Prop :=
-  match r_custom r with Some cu => 0 <= custom_bips cu | None => True end.
+  match r_custom r with Some cu => 0 <= custom_bips cu | None => True end /\
+  Forall (fun c : coin => 0 < snd c) (r_post r).
 Definition wf_tx (t : tx) : Prop :=
   (forall d, 0 <= amount_of (t_fee t) d) /\ Forall wf_routed (routed_all t).
 
@@ -174,9 +175,9 @@ Proof. unfold lookup_fee. intros H. apply find_some in H. tauto. Qed.
 
 Lemma calc_one_spec cfg d0 r d1 :
   wf_cfg cfg -> wf_routed r -> calc_one cfg d0 r = Some d1 ->
-  Forall charge_ok (charges cfg r) /\ dist_rel d0 d1 (charges cfg r).
+  Forall charge_ok (charges_pre cfg r) /\ dist_rel d0 d1 (charges_pre cfg r).
 Proof.
-  intros Hs Hr. unfold calc_one, charges.
+  intros Hs Hr. unfold calc_one, charges_pre. destruct Hr as (Hr & _).
   destruct (lookup_fee (schedule cfg) (r_type r)) as [e|] eqn:El.
   - destruct (increase d0 (fe_coin e) (fe_bips e) (fe_recipient e)) as [dm|] eqn:E1; [|discriminate].
     apply increase_spec in E1; [|apply Hs; eapply lookup_fee_in; eassumption]. destruct E1 as (F1 & D1).
@@ -198,18 +199,22 @@ Proof. unfold share. cbn [flat_map]. apply zsum_app. Qed.
 Lemma shares_total_cons cfg r rs d : shares_total cfg (r :: rs) d = zsum (ch_share_any d) (charges cfg r) + shares_total cfg rs d.
 Proof. unfold shares_total. cbn [flat_map]. apply zsum_app. Qed.
 
+Lemma additional_pre_cons cfg r rs d :
+  additional_pre cfg (r :: rs) d = zsum (ch_amount d) (charges_pre cfg r) + additional_pre cfg rs d.
+Proof. unfold additional_pre. cbn [flat_map]. apply zsum_app. Qed.
+
 Lemma calc_spec cfg rs : forall d0 d1,
   wf_cfg cfg -> Forall wf_routed rs -> calc cfg d0 rs = Some d1 ->
-  Forall charge_ok (flat_map (charges cfg) rs) /\
-  forall x, amount_of (d_total d1) x = amount_of (d_total d0) x + additional cfg rs x.
+  Forall charge_ok (flat_map (charges_pre cfg) rs) /\
+  forall x, amount_of (d_total d1) x = amount_of (d_total d0) x + additional_pre cfg rs x.
 Proof.
   induction rs as [|r rs IH]; cbn [calc]; intros d0 d1 Hc Hw H.
-  - inversion H. subst. split; [constructor|]. intros. unfold additional. cbn. ring.
+  - inversion H. subst. split; [constructor|]. intros. unfold additional_pre. cbn. ring.
   - inversion Hw as [|? ? Hr Hrs]. subst. destruct (calc_one cfg d0 r) as [dm|] eqn:E; [|discriminate].
     apply calc_one_spec in E; try assumption. destruct E as (F & T & _).
     destruct (IH _ _ Hc Hrs H) as (F' & T'). split.
     + cbn [flat_map]. apply Forall_app. split; assumption.
-    + intros x. rewrite T', T, additional_cons. ring.
+    + intros x. rewrite T', T, additional_pre_cons. ring.
 Qed.
 
 (** charges are positive, shares are between 0 and the charge *)
@@ -252,9 +257,6 @@ Definition meter_rel cfg (m0 m1 : meter) (rs : list routed) : Prop :=
   (forall d, amount_of (map snd (mt_recips m1)) d = amount_of (map snd (mt_recips m0)) d + shares_total cfg rs d) /\
   (forall d, amount_of (consumed m1) d = amount_of (consumed m0) d + additional cfg rs d).
 
-Definition covers_base cfg (t : tx) (m : meter) : Prop :=
-  forall d, amount_of (base_fee cfg (t_gas t)) d + amount_of (consumed m) d <= amount_of (t_fee t) d.
-
 Lemma recips_amt_app l1 l2 a d : recips_amt (l1 ++ l2) a d = recips_amt l1 a d + recips_amt l2 a d.
 Proof. apply zsum_app. Qed.
 
@@ -275,75 +277,111 @@ Definition moves_of (r : routed) : list move :=
   match r_action r with
   | ASend f t c => [{| mv_from := f; mv_to := t; mv_coins := c |}]
   | ANop _ => []
+  | AExt _ ms => ms
   end.
 
 Lemma msg_moves_cons r rs : msg_moves (r :: rs) = moves_of r ++ msg_moves rs.
 Proof. reflexivity. Qed.
 
+Lemma some_inj {A} (x y : A) : Some x = Some y -> x = y.
+Proof. congruence. Qed.
+
+(* the charges a handler records itself *)
+Lemma post_charges_spec (post : coins) :
+  Forall (fun c : coin => 0 < snd c) post ->
+  let chs := map (fun c : coin => (c, 0, @None acct)) post in
+  Forall charge_ok chs /\
+  (forall d, zsum (ch_amount d) chs = amount_of post d) /\
+  (forall a d, zsum (ch_share a d) chs = 0) /\ (forall d, zsum (ch_share_any d) chs = 0).
+Proof.
+  induction 1 as [|[dn v] post Hc _ IH]; cbn zeta.
+  - split; [constructor|]. repeat split; intros; reflexivity.
+  - destruct IH as (F & A & S & T). cbn [map]. split; [constructor; [cbn; split; [exact Hc|intros Hn; congruence]|exact F]|].
+    split; [|split]; intros; rewrite zsum_cons.
+    + rewrite A, amount_of_cons. reflexivity.
+    + rewrite S. reflexivity.
+    + rewrite T. reflexivity.
+Qed.
+
 Lemma route_spec cfg t b m r b' m' :
-  wf_cfg cfg -> (forall d, 0 <= amount_of (t_fee t) d) -> wf_routed r -> covers_base cfg t m ->
+  wf_cfg cfg -> wf_routed r ->
   route cfg t (b, m) r = Some (b', m') ->
-  exec_moves b (moves_of r) = Some b' /\ meter_rel cfg m m' [r] /\ covers_base cfg t m' /\
+  exec_moves b (moves_of r) = Some b' /\ meter_rel cfg m m' [r] /\
   Forall charge_ok (charges cfg r).
 Proof.
-  intros Hc Hfee Hr Hcov. unfold route.
+  intros Hc Hr. pose proof Hr as (_ & Hpost). unfold route.
   destruct (calc_one cfg dist0 r) as [fd|] eqn:E; [|discriminate].
   apply calc_one_spec in E; try assumption. destruct E as (F & T & R & S & M).
   cbn [dist0 d_total d_recips d_module map amount_of] in T, R, S, M.
+  destruct (post_charges_spec _ Hpost) as (Fp & Ap & Sp & Tp). cbn zeta in Fp, Ap, Sp, Tp.
   assert (Rz : forall a x, recips_amt [] a x = 0) by reflexivity.
   set (mm := if is_zero (d_total fd) then Some m
              else if ensure cfg (t_fee t) (t_gas t) (cadd (consumed m) (d_total fd))
                   then Some {| mt_module := d_module fd ++ mt_module m; mt_recips := d_recips fd ++ mt_recips m |}
                   else None).
-  assert (Hm : forall m1, mm = Some m1 -> meter_rel cfg m m1 [r] /\ covers_base cfg t m1).
+  (* the router's part, against the router-visible charges *)
+  assert (Hm : forall m1, mm = Some m1 ->
+     (forall a d, recips_amt (mt_recips m1) a d = recips_amt (mt_recips m) a d + zsum (ch_share a d) (charges_pre cfg r)) /\
+     (forall d, amount_of (map snd (mt_recips m1)) d = amount_of (map snd (mt_recips m)) d + zsum (ch_share_any d) (charges_pre cfg r)) /\
+     (forall d, amount_of (consumed m1) d = amount_of (consumed m) d + zsum (ch_amount d) (charges_pre cfg r))).
   { subst mm. intros m1. destruct (is_zero (d_total fd)) eqn:Ez.
     - intros H. inversion H. subst m1. clear H.
-      assert (Z0 : forall x, zsum (ch_amount x) (charges cfg r) = 0).
+      assert (Z0 : forall x, zsum (ch_amount x) (charges_pre cfg r) = 0).
       { intros x. pose proof (is_zero_true _ Ez x) as Hz. rewrite T in Hz. lia. }
-      split; [|assumption]. unfold meter_rel, share, shares_total, additional. cbn [flat_map]. rewrite app_nil_r.
       split; [|split]; intros.
       + pose proof (charges_bounds _ a d F). specialize (Z0 d). lia.
       + pose proof (charges_bounds _ 0%N d F). specialize (Z0 d). lia.
       + specialize (Z0 d). lia.
-    - destruct (ensure cfg (t_fee t) (t_gas t) (cadd (consumed m) (d_total fd))) eqn:Ee; [|discriminate].
-      intros H. inversion H. subst m1. clear H.
-      assert (Hcons : forall d, amount_of (consumed {| mt_module := d_module fd ++ mt_module m; mt_recips := d_recips fd ++ mt_recips m |}) d
-                                = amount_of (consumed m) d + zsum (ch_amount d) (charges cfg r)).
-      { intros d. rewrite !consumed_amount. cbn [mt_module mt_recips]. rewrite map_app, !amount_of_app.
+    - destruct (ensure cfg (t_fee t) (t_gas t) (cadd (consumed m) (d_total fd))); [|discriminate].
+      intros H. inversion H. subst m1. clear H. cbn [mt_recips mt_module].
+      split; [|split].
+      + intros a d. rewrite recips_amt_app, R, Rz. ring.
+      + intros d. rewrite map_app, amount_of_app, S. ring.
+      + intros d. rewrite !consumed_amount. cbn [mt_module mt_recips]. rewrite map_app, !amount_of_app.
         specialize (M d). specialize (T d). lia. }
-      split.
-      + unfold meter_rel, share, shares_total, additional. cbn [flat_map mt_recips mt_module]. rewrite app_nil_r.
-        split; [|split].
-        * intros a d. rewrite recips_amt_app, R, Rz. ring.
-        * intros d. rewrite map_app, amount_of_app, S. ring.
-        * exact Hcons.
-      + intros d. pose proof (ensure_spec _ _ _ _ Hfee Ee d) as He. rewrite amount_of_cadd in He.
-        rewrite Hcons. specialize (T d). lia. }
-  destruct mm as [m1|]; [|discriminate]. specialize (Hm m1 eq_refl). destruct Hm as (Hrel & Hcov1).
-  unfold moves_of. destruct (r_action r) as [f to c|ok].
-  - destruct (is_zero c); [discriminate|].
-    destruct (exec_move b {| mv_from := f; mv_to := to; mv_coins := c |}) as [b1|] eqn:Em; [|discriminate].
-    intros H. inversion H. subst. cbn [exec_moves]. rewrite Em. auto.
-  - destruct ok; [|discriminate]. intros H. inversion H. subst. cbn [exec_moves]. auto.
+  destruct mm as [m1|]; [|discriminate]. specialize (Hm m1 eq_refl). destruct Hm as (R1 & S1 & C1).
+  set (act := match r_action r with
+              | ANop ok => if ok then Some b else None
+              | ASend from to c => if is_zero c then None else exec_move b {| mv_from := from; mv_to := to; mv_coins := c |}
+              | AExt ok ms => if ok then exec_moves b ms else None
+              end).
+  assert (Ha : forall b1, act = Some b1 -> exec_moves b (moves_of r) = Some b1).
+  { subst act. unfold moves_of. intros b1. destruct (r_action r) as [f to c|ok|ok ms].
+    - destruct (is_zero c); [discriminate|]. intros Em. cbn [exec_moves]. rewrite Em. reflexivity.
+    - destruct ok; [|discriminate]. intros H. inversion H. reflexivity.
+    - destruct ok; [|discriminate]. auto. }
+  destruct act as [b1|]; [|discriminate]. specialize (Ha b1 eq_refl).
+  intros H. apply some_inj in H. inversion H. subst b' m'. clear H.
+  split; [exact Ha|]. split; [|unfold charges; apply Forall_app; split; assumption].
+  unfold meter_rel, share, shares_total, additional, charges. cbn [flat_map]. rewrite app_nil_r.
+  destruct (is_zero (r_post r)) eqn:Ezp.
+  - assert (Zp : forall d, amount_of (r_post r) d = 0) by (apply is_zero_true; exact Ezp).
+    split; [|split]; intros; rewrite zsum_app.
+    + rewrite R1, Sp. ring.
+    + rewrite S1, Tp. ring.
+    + rewrite C1, Ap, Zp. ring.
+  - cbn [mt_recips]. split; [|split]; intros; rewrite zsum_app.
+    + rewrite R1, Sp. ring.
+    + rewrite S1, Tp. ring.
+    + rewrite consumed_amount. cbn [mt_module mt_recips]. rewrite amount_of_app, Ap.
+      specialize (C1 d). rewrite consumed_amount in C1. lia.
 Qed.
 
-
 Lemma route_all_spec cfg t rs : forall b m b' m',
-  wf_cfg cfg -> (forall d, 0 <= amount_of (t_fee t) d) -> Forall wf_routed rs -> covers_base cfg t m ->
+  wf_cfg cfg -> Forall wf_routed rs ->
   route_all cfg t (b, m) rs = Some (b', m') ->
-  exec_moves b (msg_moves rs) = Some b' /\ meter_rel cfg m m' rs /\ covers_base cfg t m' /\
+  exec_moves b (msg_moves rs) = Some b' /\ meter_rel cfg m m' rs /\
   Forall charge_ok (flat_map (charges cfg) rs).
 Proof.
-  induction rs as [|r rs IH]; cbn [route_all]; intros b m b' m' Hc Hfee Hw Hcov H.
-  - inversion H. subst. split; [reflexivity|]. split; [apply meter_rel_refl|]. split; [assumption|constructor].
+  induction rs as [|r rs IH]; cbn [route_all]; intros b m b' m' Hc Hw H.
+  - inversion H. subst. split; [reflexivity|]. split; [apply meter_rel_refl|constructor].
   - inversion Hw as [|? ? Hr Hrs]. subst.
     destruct (route cfg t (b, m) r) as [[b1 m1]|] eqn:E; [|discriminate].
-    apply route_spec in E; try assumption. destruct E as (X1 & R1 & C1 & F1).
-    destruct (IH _ _ _ _ Hc Hfee Hrs C1 H) as (X2 & R2 & C2 & F2).
-    split; [|split; [|split]].
+    apply route_spec in E; try assumption. destruct E as (X1 & R1 & F1).
+    destruct (IH _ _ _ _ Hc Hrs H) as (X2 & R2 & F2).
+    split; [|split].
     + rewrite msg_moves_cons. eapply exec_moves_app; eassumption.
     + eapply meter_rel_cons; eassumption.
-    + assumption.
     + cbn [flat_map]. apply Forall_app. split; assumption.
 Qed.
 
@@ -452,21 +490,20 @@ Proof.
       symmetry. apply recips_amt_notin. intros Hi. apply Hn. apply recip_keys_in. exact Hi.
 Qed.
 
-Lemma some_inj {A} (x y : A) : Some x = Some y -> x = y.
-Proof. congruence. Qed.
-
 Lemma invoke_moves_spec src unch m ms a d :
   invoke_moves src unch m = Some ms ->
   debit_of ms a d = ind (N.eqb a src) (amount_of unch d) /\
   credit_of ms a d = ind (N.eqb a collector) (amount_of unch d - amount_of (map snd (mt_recips m)) d)
-                     + recips_amt (mt_recips m) a d.
+                     + recips_amt (mt_recips m) a d /\
+  amount_of (consumed m) d <= amount_of unch d.
 Proof.
-  unfold invoke_moves. cbv zeta. destruct (has_neg (csub unch (sent_of (dist_moves src m)))); [discriminate|].
-  intros H. apply some_inj in H. subst ms.
+  unfold invoke_moves. cbv zeta. destruct (has_neg (csub unch (sent_of (dist_moves src m)))) eqn:Eneg; [discriminate|].
+  intros H. apply some_inj in H. subst ms. pose proof (has_neg_false _ Eneg d) as Hnn.
   destruct (dist_moves_spec src m a d) as (Fs & Hsent & Hcred).
   set (unsent := csub unch (sent_of (dist_moves src m))).
   assert (Hu : amount_of unsent d = amount_of unch d - amount_of (mt_module m) d - amount_of (map snd (mt_recips m)) d).
   { subst unsent. rewrite amount_of_csub, Hsent. ring. }
+  fold unsent in Hnn. rewrite consumed_amount.
   rewrite debit_of_app, credit_of_app, Hcred, (debit_all_src _ src a d Fs), Hsent.
   destruct (is_zero unsent) eqn:Ez.
   - pose proof (is_zero_true _ Ez d) as Hz. unfold debit_of, credit_of. rewrite !zsum_nil.
@@ -518,20 +555,19 @@ Proof.
   all: intros g p Hd; cbn [bump_seq with_bal allow]; apply Ha; exact Hd.
 Qed.
 
-Lemma additional_nonneg cfg rs d : Forall charge_ok (flat_map (charges cfg) rs) -> 0 <= additional cfg rs d.
-Proof. intros F. unfold additional. pose proof (charges_bounds _ 0%N d F). lia. Qed.
+Definition covered_pre (cfg : config) (t : tx) (rs : list routed) : Prop :=
+  forall d, amount_of (base_fee cfg (t_gas t)) d + additional_pre cfg rs d <= amount_of (t_fee t) d.
 
-(** admission: the declared fee covers the base fee plus the additional fees of the top-level messages *)
+(** admission: the declared fee covers the base fee plus the additional fees of the top-level messages
+    that the fee schedule and the custom assessed fees define *)
 Lemma admitted_covered cfg s t :
   wf_cfg cfg -> wf_tx t -> Forall wf_routed (routed_top t) -> check_tx cfg s t = true ->
-  covered cfg t (routed_top t) /\ forall d, amount_of (base_fee cfg (t_gas t)) d <= amount_of (t_fee t) d.
+  covered_pre cfg t (routed_top t).
 Proof.
   intros Hc (Hfee & _) Hw. unfold check_tx. destruct (ante cfg s t true) as [s1|] eqn:E; [|discriminate]. intros _.
   apply ante_spec in E. destruct E as (_ & (fd & Ecalc & Hens) & _).
   specialize (Hens eq_refl). apply calc_spec in Ecalc; try assumption. destruct Ecalc as (F & T).
-  assert (Hcov : covered cfg t (routed_top t)).
-  { intros d. pose proof (ensure_spec _ _ _ _ Hfee Hens d) as He. rewrite T in He. cbn [dist0 d_total amount_of] in He. lia. }
-  split; [assumption|]. intros d. specialize (Hcov d). pose proof (additional_nonneg cfg _ d F). lia.
+  intros d. pose proof (ensure_spec _ _ _ _ Hfee Hens d) as He. rewrite T in He. cbn [dist0 d_total amount_of] in He. lia.
 Qed.
 
 Lemma routed_top_wf t : Forall wf_routed (routed_all t) -> Forall wf_routed (routed_top t).
@@ -548,21 +584,26 @@ Lemma fee_invoke_spec cfg s t base m s' :
       + ind (N.eqb a collector) (amount_of (t_fee t) d - amount_of base d - amount_of (map snd (mt_recips m)) d)
       + recips_amt (mt_recips m) a d
       \/ (forall x, amount_of (t_fee t) x = amount_of base x) /\ (forall x, amount_of (consumed m) x = 0) /\ bal s' a d = bal s a d) /\
+  (forall d, amount_of base d + amount_of (consumed m) d <= amount_of (t_fee t) d) /\
   seqn s' = seqn s /\ allow_others s s' t.
 Proof.
   unfold fee_invoke. destruct (use_grant s t (csub (t_fee t) base)) as [[s1 src]|] eqn:Eu; [|discriminate].
   apply use_grant_spec in Eu. destruct Eu as (-> & Hb & Hs & Ha).
   destruct (is_zero (csub (t_fee t) base) && is_zero (consumed m)) eqn:Ez.
   - intros H. inversion H. subst s'. clear H. apply andb_true_iff in Ez. destruct Ez as (Z1 & Z2).
-    split; [|split; [assumption|exact Ha]]. intros a d. right.
-    split; [|split; [apply is_zero_true; assumption|rewrite Hb; reflexivity]].
-    intros x. pose proof (is_zero_true _ Z1 x) as Hz. rewrite amount_of_csub in Hz. lia.
+    assert (Hz1 : forall x, amount_of (t_fee t) x = amount_of base x).
+    { intros x. pose proof (is_zero_true _ Z1 x) as Hz. rewrite amount_of_csub in Hz. lia. }
+    split; [|split; [|split; [assumption|exact Ha]]].
+    + intros a d. right. split; [exact Hz1|split; [apply is_zero_true; assumption|rewrite Hb; reflexivity]].
+    + intros d. rewrite (Hz1 d), (is_zero_true _ Z2 d). lia.
   - destruct (invoke_moves (fee_source t) (csub (t_fee t) base) m) as [ms|] eqn:Ei; [|discriminate].
     destruct (exec_moves (bal s1) ms) as [b|] eqn:Em; [|discriminate].
     intros H. inversion H. subst s'. clear H. cbn [with_bal bal seqn allow].
-    split; [|split; [assumption|exact Ha]]. intros a d. left.
-    rewrite (exec_moves_spec _ _ _ Em a d), Hb.
-    destruct (invoke_moves_spec _ _ _ _ a d Ei) as (-> & ->). rewrite amount_of_csub. ring.
+    split; [|split; [|split; [assumption|exact Ha]]].
+    + intros a d. left. rewrite (exec_moves_spec _ _ _ Em a d), Hb.
+      destruct (invoke_moves_spec _ _ _ _ a d Ei) as (-> & -> & _). rewrite amount_of_csub. ring.
+    + intros d. destruct (invoke_moves_spec _ _ _ _ collector d Ei) as (_ & _ & Hle).
+      rewrite amount_of_csub in Hle. lia.
 Qed.
 
 Lemma deliver_cases cfg s t s' r :
@@ -593,21 +634,19 @@ Proof.
 Qed.
 
 Lemma deliver_ok cfg s t s' :
-  wf_cfg cfg -> wf_tx t -> check_tx cfg s t = true -> deliver cfg s t = (s', ROk) ->
+  wf_cfg cfg -> wf_tx t -> deliver cfg s t = (s', ROk) ->
   (forall a d, bal s' a d = bal s a d + spec_ok_delta cfg t a d) /\
-  covered cfg t (routed_all t) /\ seq_bumped s s' t /\ allow_others s s' t.
+  covered cfg t (routed_all t) /\ (forall d, 0 <= additional cfg (routed_all t) d) /\
+  seq_bumped s s' t /\ allow_others s s' t.
 Proof.
-  intros Hc Hw Hadm H. pose proof Hw as (Hfee & Hall).
-  destruct (admitted_covered cfg s t Hc Hw (routed_top_wf t Hall) Hadm) as (_ & Hbase).
+  intros Hc Hw H. pose proof Hw as (Hfee & Hall).
   apply deliver_cases in H. destruct H as [(Hr & _)|(s1 & Ea & [(Hr & _)|(_ & b2 & m & Er & Ef)])]; try discriminate.
   apply ante_spec in Ea. destruct Ea as (_ & _ & Hb1 & Hs1 & Ha1).
-  assert (C0 : covers_base cfg t meter0).
-  { intros d. cbn [meter0 consumed mt_module mt_recips map app amount_of]. specialize (Hbase d). lia. }
-  apply route_all_spec in Er; try assumption. destruct Er as (Xm & (Rr & Rs & Rc) & Cm & F).
+  apply route_all_spec in Er; try assumption. destruct Er as (Xm & (Rr & Rs & Rc) & F).
   cbn [meter0 mt_recips mt_module map amount_of consumed app] in Rr, Rs, Rc.
   assert (Rz : forall a x, recips_amt [] a x = 0) by reflexivity.
-  apply fee_invoke_spec in Ef. destruct Ef as (Hb3 & Hs3 & Ha3). cbn [with_bal bal seqn allow] in Hb3, Hs3, Ha3.
-  split; [|split; [|split]].
+  apply fee_invoke_spec in Ef. destruct Ef as (Hb3 & Hcov & Hs3 & Ha3). cbn [with_bal bal seqn allow] in Hb3, Hs3, Ha3.
+  split; [|split; [|split; [|split]]].
   - intros a d. pose proof (exec_moves_spec _ _ _ Xm a d) as Hb2.
     destruct (Hb3 a d) as [->|(Hfeeq & Hcz & ->)].
     + rewrite Hb2, Hb1, Rr, Rs, Rz. unfold spec_ok_delta, spec_fail_delta, msg_net, ind.
@@ -618,7 +657,8 @@ Proof.
       fold (shares_total cfg (routed_all t) d) in Hbd. fold (additional cfg (routed_all t) d) in Hbd.
       rewrite Hb2, Hb1. unfold spec_ok_delta, spec_fail_delta, msg_net, ind. rewrite (Hfeeq d).
       destruct (N.eqb a (fee_source t)), (N.eqb a collector); lia.
-  - intros d. specialize (Cm d). specialize (Rc d). lia.
+  - intros d. specialize (Hcov d). specialize (Rc d). lia.
+  - intros d. pose proof (charges_bounds _ 0%N d F) as Hbd. fold (additional cfg (routed_all t) d) in Hbd. lia.
   - intros a. rewrite Hs3. apply Hs1.
   - intros g p Hd. rewrite Ha3 by assumption. apply Ha1. assumption.
 Qed.
@@ -675,7 +715,12 @@ Proof.
     unfold spec_fail_delta, ind. rewrite N.eqb_refl, Hsrc. ring.
   - intros ->. apply deliver_ok in Hd; try assumption. destruct Hd as (Hb & _). intros d. rewrite Hb.
     unfold spec_ok_delta, ind. rewrite N.eqb_refl, Hsrc. ring.
-  - destruct Hw as (Hf & Hall). apply (admitted_covered cfg s t Hc (conj Hf Hall) (routed_top_wf t Hall) Hadm).
+  - destruct Hw as (Hf & Hall). intros d.
+    pose proof (admitted_covered cfg s t Hc (conj Hf Hall) (routed_top_wf t Hall) Hadm d) as Hcov.
+    assert (Hadm' := Hadm). unfold check_tx in Hadm'. destruct (ante cfg s t true) as [s1|] eqn:E; [|discriminate].
+    apply ante_spec in E. destruct E as (_ & (fd & Ecalc & _) & _).
+    apply calc_spec in Ecalc; try assumption; [|apply routed_top_wf; assumption]. destruct Ecalc as (F & _).
+    pose proof (charges_bounds _ 0%N d F) as Hbd. fold (additional_pre cfg (routed_top t) d) in Hbd. lia.
 Qed.
 
 Lemma c08_additional_covered cfg s t s' :
@@ -705,7 +750,7 @@ Qed.
 
 Lemma c08_rejected cfg s t :
   (check_tx cfg s t = false -> step s (OTx cfg t) = (s, RRejected)) /\
-  (wf_cfg cfg -> wf_tx t -> ~ covered cfg t (routed_top t) -> check_tx cfg s t = false).
+  (wf_cfg cfg -> wf_tx t -> ~ covered_pre cfg t (routed_top t) -> check_tx cfg s t = false).
 Proof.
   split.
   - intros H. cbn [step]. rewrite H. reflexivity.
@@ -719,7 +764,7 @@ Definition tx_clauses (cfg : config) (s : state) (t : tx) (s' : state) (r : resu
   | RRejected | RAnteFail => s' = s
   | RFailed => (forall a d, bal s' a d = bal s a d + spec_fail_delta cfg t a d) /\ seq_bumped s s' t /\ allow_others s s' t
   | ROk => (forall a d, bal s' a d = bal s a d + spec_ok_delta cfg t a d) /\ covered cfg t (routed_all t) /\
-           seq_bumped s s' t /\ allow_others s s' t
+           (forall d, 0 <= additional cfg (routed_all t) d) /\ seq_bumped s s' t /\ allow_others s s' t
   end.
 
 Lemma step_clauses cfg s t : wf_cfg cfg -> wf_tx t ->
